@@ -96,7 +96,7 @@ def flat(x):
     return out
 
 
-def fit_job(lengths, S, lag, builder, trim, sliding):
+def fit_job(lengths, S, lag, builder, trim, sliding, late_params=False):
     tm = loader.load('enspara.msm.transition_matrices')
     mm = loader.load('enspara.msm.msm')
     ra = loader.load('enspara.ra.ra')
@@ -122,7 +122,17 @@ def fit_job(lengths, S, lag, builder, trim, sliding):
         method = dense_builder(builder)
         exc = None
         try:
-            m = mm.MSM(lag_time=lag, method=method, trim=trim, sliding_window=sliding, max_n_states=S)
+            if late_params:
+                # the counting parameters are changed AFTER construction (set_params / attribute assignment, the grid-search idiom):
+                # fit must use the estimator's current parameters
+                m = mm.MSM(lag_time=lag + 1, method=method, trim=trim, sliding_window=not sliding, max_n_states=S + 1)
+                if hasattr(m, 'set_params'):
+                    m.set_params(lag_time=lag, sliding_window=sliding)
+                else:
+                    m.lag_time, m.sliding_window = lag, sliding
+                m.max_n_states = S
+            else:
+                m = mm.MSM(lag_time=lag, method=method, trim=trim, sliding_window=sliding, max_n_states=S)
             m.fit(build(trajs, False))
             got = (dn(m.tcounts_), dn(m.tprobs_), dn(m.eq_probs_), dict(m.mapping_.to_original))
             exp = pipeline(build(trajs, False), method)
@@ -152,7 +162,15 @@ def fit_job(lengths, S, lag, builder, trim, sliding):
                               'sliding_window': sliding, 'max_n_states': S}}
             with core.concrete_mode():
                 try:
-                    m2 = mm.MSM(lag_time=lag, method=method, trim=trim, sliding_window=sliding, max_n_states=S)
+                    if late_params:
+                        m2 = mm.MSM(lag_time=lag + 1, method=method, trim=trim, sliding_window=not sliding, max_n_states=S + 1)
+                        if hasattr(m2, 'set_params'):
+                            m2.set_params(lag_time=lag, sliding_window=sliding)
+                        else:
+                            m2.lag_time, m2.sliding_window = lag, sliding
+                        m2.max_n_states = S
+                    else:
+                        m2 = mm.MSM(lag_time=lag, method=method, trim=trim, sliding_window=sliding, max_n_states=S)
                     m2.fit(build(cv, True))
                     g2 = (dn(m2.tcounts_), dn(m2.tprobs_), dn(m2.eq_probs_), dict(m2.mapping_.to_original))
                     e2 = pipeline(build(cv, True), method)
@@ -399,6 +417,9 @@ def jobs(tier):
                             continue
                         add('fit_job', 'fit[%s,lag=%d,%s,trim=%s,sliding=%s]' % (list(L), lag, builder, trim, sliding),
                             lengths=L, S=2, lag=lag, builder=builder, trim=trim, sliding=sliding)
+                        if builder == 'transpose' and L == (3, 2):
+                            add('fit_job', 'fit[%s,lag=%d,%s,trim=%s,sliding=%s,parameters set after construction]' % (list(L), lag, builder, trim, sliding),
+                                lengths=L, S=2, lag=lag, builder=builder, trim=trim, sliding=sliding, late_params=True)
     for n in (2, 3):       # n=4 was tried: every query ends `unknown` (quartic characteristic polynomial), so it is not claimed
         if n <= 2 or not q:
             add('spectrum_job', 'spectrum[n=%d,all,left]' % n, n=n)
